@@ -1,6 +1,6 @@
 #!/bin/sh
 # Builds the framework offline from files on disk only.
-cd /verif || exit 2
+cd "$(dirname "$0")" || exit 2
 export GOFLAGS=-mod=mod GOPROXY=off GOSUMDB=off GOTOOLCHAIN=local
 mkdir -p bin evidence replays .work
 go build -o bin/check ./cmd/check || exit 2
